@@ -1,4 +1,5 @@
-\* Strain.tla, machine HSpec, thorough tier: histories on one grain / DeformationGradientTensor / TensorMap object,
+\* Strain.tla, machine HSpec, thorough tier: histories on one grain / DeformationGradientTensor / TensorMap object
+\* (with decorations: carried ref_unitcell objects, touched caches, explicit dzero_unitcell maps, reference cells of other scales),
 \* drawn by `tlc -simulate` (seed = VERIF_SEED); every invariant is checked along each behaviour
 SPECIFICATION HSpec
 CONSTANTS
@@ -13,14 +14,18 @@ CONSTANTS
   HSTRETCHES <- HStretchT
   HROTS <- HRotsT
   HU0R <- HU0RAll
-  HLEN = 14
+  HSCALES <- HScalesAll
+  MTOUCHES <- MTouchAll
+  HLEN = 16
   PHASEDICTS <- PhaseDicts
   NVER = 3
-  MLEN = 10
+  MLEN = 11
 INVARIANT HAnswersCurrent
 INVARIANT HPolarOK
+INVARIANT HDecorTracked
 INVARIANT MapExpCurrent
 INVARIANT MapRepairedCurrent
 INVARIANT DzeroByKey
+INVARIANT DzSourceOK
 INVARIANT HEmit
 CHECK_DEADLOCK FALSE
